@@ -64,7 +64,9 @@ func rootCause(failure string, tm *tmpl, rv, ov *view, trans, ident bool, fv int
 		return "dense-mul-sym-tri-operand-unchecked" // F10
 	case in(m, "Dense.Scale", "Dense.Apply") && corrupt && trans && (isTri || ov.k == kVec):
 		return "dense-scale-apply-transposed-operand-unchecked" // F11
-	case m == "Dense.Kronecker" && in(failure, "silent-corruption", "ident-wrong-result", "ident-panic", "write-before-panic"):
+	case m == "Dense.Kronecker" && (in(failure, "silent-corruption", "ident-wrong-result", "ident-panic", "write-before-panic") ||
+		// m.Kronecker(x, m): the receiver as b panics "identical" even when x is unrelated.
+		(failure == "unaliased-run-panicked" && tm.pos == "a,b=recv")):
 		return "dense-kronecker-aliasing-unhandled" // F12
 	case in(m, "Dense.Stack", "Dense.Augment") && tm.pos == "b" && in(failure, "silent-corruption", "write-before-panic"):
 		return "dense-stack-augment-aliasing-unhandled" // F13
